@@ -275,17 +275,20 @@ def initAll (fuel : Nat) : List Name → St → St
 /-- members of the poll thread owned by `t`, in order of registration -/
 def members (st : St) (t : Name) : List Name := (st.groups.filter (fun g => g.1 == t)).map (·.2)
 
-def startOne (st : St) (m : Name) : St :=
-  let st := emit st (.start m)
-  if (members st m).isEmpty then st else emit st (.thread m)
+/-- what the start loop of `_processCfg` logs for module `m`: `startModule`, and a poll thread if there is something
+to poll or to write (modulebase.py:604-617) -/
+def startOne (st : St) (m : Name) : List Ev :=
+  if (members st m).isEmpty then [Ev.start m] else [Ev.start m, Ev.thread m]
 
-/-- `_processCfg` up to and including the start loop -/
+def startEvents (st : St) : List Ev := st.modules.flatMap (startOne st)
+
+/-- `_processCfg` up to the decision whether the node is started at all -/
 def startup (cfg : Cfg) (fuel : Nat) : St :=
   let st : St := { known := cfg.mods }
   let st := createLoop cfg.dyn fuel fuel cfg.mods st
   let st := initAll fuel st.modules st                      -- create_modules: every created module is initialised
   let st := initAll fuel st.exportL st                      -- get_descriptive_data
-  if st.errors.isEmpty then st.modules.foldl startOne st else emit st .exit
+  if st.errors.isEmpty then st else emit st .exit
 
 /-! ### poll thread prologue and the start events -/
 
@@ -298,15 +301,18 @@ def prologue (st : St) (t : Name) : List Ev :=
 def threadsOf (st : St) : List Name := st.modules.filter (fun m => !(members st m).isEmpty)
 
 inductive Act where
+  | main                  -- the main thread performs the next step of the start loop
   | step (t : Name)       -- thread `t` performs its next prologue event
   | expire                -- the deadline of the start events passes
   | wake                  -- the main thread, waiting in `start_events.wait()`, runs
 deriving Repr, DecidableEq
 
-/-- the abstract `MultiEvent`: pending names; `wait` returns when it is empty or the deadline has passed -/
+/-- the start loop, the poll threads' prologues and the abstract `MultiEvent`: pending names; `wait` returns when it
+is empty or the deadline has passed -/
 structure Wait where
+  mainTodo : List Ev               -- remaining start loop
   todo : List (Name × List Ev)     -- remaining prologue of every thread
-  pending : List Name              -- MultiEvent.events
+  pending : List Name := []        -- MultiEvent.events
   expired : Bool := false
   ready : Bool := false
   log : List Ev := []
@@ -323,33 +329,50 @@ def popThread (t : Name) : List (Name × List Ev) → Option Ev × List (Name ×
       let (e, rest') := popThread t rest
       (e, (n, evs) :: rest')
 
-def actStep (w : Wait) : Act → Wait
-  | .step t =>
+def mainStep (w : Wait) : Wait :=
+  match w.mainTodo with
+  | [] => w
+  | e :: rest =>
+    { w with mainTodo := rest, log := w.log ++ [e],
+             pending := match e with
+               | .thread t => w.pending ++ [t]      -- start_events.get_trigger()
+               | _ => w.pending }
+
+def threadStep (w : Wait) (t : Name) : Wait :=
+  if w.log.contains (Ev.thread t) then
     match popThread t w.todo with
     | (some e, todo) =>
       { w with todo := todo, log := w.log ++ [e],
                pending := if e == Ev.rounddone t then w.pending.erase t else w.pending }
     | (none, _) => w
+  else w
+
+def wakeStep (w : Wait) : Wait :=
+  if w.ready || !w.mainTodo.isEmpty then w
+  else if w.pending.isEmpty then { w with ready := true, log := w.log ++ [Ev.ready] }
+  else if w.expired then { w with ready := true, log := w.log ++ w.pending.map Ev.timeout ++ [Ev.ready] }
+  else w
+
+def actStep (w : Wait) : Act → Wait
+  | .main => mainStep w
+  | .step t => threadStep w t
   | .expire => if w.expired then w else { w with expired := true, log := w.log ++ [Ev.deadline] }
-  | .wake =>
-    if w.ready then w
-    else if w.pending.isEmpty then { w with ready := true, log := w.log ++ [Ev.ready] }
-    else if w.expired then { w with ready := true, log := w.log ++ w.pending.map Ev.timeout ++ [Ev.ready] }
-    else w
+  | .wake => wakeStep w
 
 def waitRun (w : Wait) (sched : List Act) : Wait := sched.foldl actStep w
 
-/-- everything still outstanding happens eventually: the main thread wakes (after the deadline if need be) and every
-first round completes -/
-def flushActs (w : Wait) : List Act :=
-  (if w.pending.isEmpty then [] else [Act.expire]) ++ [Act.wake] ++
-  w.todo.flatMap (fun p => p.2.map (fun _ => Act.step p.1))
+/-- everything still outstanding happens eventually: the start loop completes, the main thread wakes (after the
+deadline if need be) and every first round completes -/
+def finish (w : Wait) : Wait :=
+  let w := waitRun w (w.mainTodo.map (fun _ => Act.main))
+  let w := waitRun w (if w.ready then [] else if w.pending.isEmpty then [Act.wake] else [Act.expire, Act.wake])
+  waitRun w (w.todo.flatMap (fun p => p.2.map (fun _ => Act.step p.1)))
+
+def waitInit (st : St) : Wait :=
+  { mainTodo := startEvents st, todo := (threadsOf st).map (fun t => (t, prologue st t)) }
 
 def waitPhase (st : St) (sched : List Act) : List Ev :=
-  let ts := threadsOf st
-  let w0 : Wait := { todo := ts.map (fun t => (t, prologue st t)), pending := ts }
-  let w := waitRun w0 sched
-  (waitRun w (flushActs w)).log
+  (finish (waitRun (waitInit st) sched)).log
 
 /-! ### shutdown -/
 
